@@ -145,13 +145,14 @@ def methodFor (Kn : ℕ) : Method :=
   | _ => Pms.Gen.Gr.unary
 
 /-- a partial column whose selector passed `selOK`: the ordered a-b pair count is the loop count (×2 on the diagonal) -/
-theorem pairCount_eq (rint : K → ℤ) (hr : IsRintHE rint) (tr : Traj K) (Ksp : ℕ) (c : Col)
+theorem pairCount_eq (tr : Traj K) (bin : ℕ → ℕ → ℕ → ℕ → Bool) (Ksp : ℕ) (c : Col)
     (hsel : selOK Ksp c = true) (hca : c.a ≠ 0)
-    (htypes : ∀ f < tr.T, ∀ i < tr.N, 1 ≤ (tr.frame f).typ i ∧ (tr.frame f).typ i ≤ Ksp) (k : ℕ) :
-    Spec.pairCount tr (dist2 rint tr) c.a c.b k
-      = (if c.a = c.b then 2 else 1) * Impl.rawCountOf tr (dist2 rint tr) c.sel k := by
+    (htypes : ∀ f < tr.T, ∀ i < tr.N, 1 ≤ (tr.frame f).typ i ∧ (tr.frame f).typ i ≤ Ksp) (k : ℕ)
+    (hB : ∀ f i j, bin f i j k = bin f j i k) :
+    Spec.pairCount tr bin c.a c.b k
+      = (if c.a = c.b then 2 else 1) * Impl.rawCountOf tr bin c.sel k := by
   unfold Spec.pairCount Impl.rawCountOf
-  apply pairHist_loopHist tr _ _ _ _ k (fun f i j => binOf_symm rint hr tr f i j k)
+  apply pairHist_loopHist tr _ _ _ _ k hB
   intro f hf i hi j hj
   apply weight_pair
   rw [selOK_spec Ksp c hsel _ _ (htypes f hf j hj) (htypes f hf i hi)]
@@ -161,11 +162,11 @@ theorem pairCount_eq (rint : K → ℤ) (hr : IsRintHE rint) (tr : Traj K) (Ksp 
   congr 1
 
 /-- the total column: every ordered pair is visited once in each orientation -/
-theorem pairCountAll_eq (rint : K → ℤ) (hr : IsRintHE rint) (tr : Traj K) (sel : Sel)
-    (hsel : ∀ x y, sel.eval x y = true) (k : ℕ) :
-    Spec.pairCountAll tr (dist2 rint tr) k = 2 * Impl.rawCountOf tr (dist2 rint tr) sel k := by
+theorem pairCountAll_eq (tr : Traj K) (bin : ℕ → ℕ → ℕ → ℕ → Bool) (sel : Sel)
+    (hsel : ∀ x y, sel.eval x y = true) (k : ℕ) (hB : ∀ f i j, bin f i j k = bin f j i k) :
+    Spec.pairCountAll tr bin k = 2 * Impl.rawCountOf tr bin sel k := by
   unfold Spec.pairCountAll Impl.rawCountOf
-  apply pairHist_loopHist tr _ _ _ _ k (fun f i j => binOf_symm rint hr tr f i j k)
+  apply pairHist_loopHist tr _ _ _ _ k hB
   intro f _ i _ j _
   simp only [hsel, ind, if_true, Nat.cast_one]
   norm_num
